@@ -190,7 +190,14 @@ def run(prop, tier, seed, only_replay=None):
     bysig = {}
     for v in new:
         bysig.setdefault(v.get("sig", "?"), []).append(v)
+    if not only_replay:
+        for fn in os.listdir(rdir):
+            if fn.startswith("violation_%s_" % tier):
+                os.remove(os.path.join(rdir, fn))
     for i, (sig, vs) in enumerate(sorted(bysig.items())):
+        if i >= 25:
+            lines.append("  ... and %d more violation signatures (not written)" % (len(bysig) - 25))
+            break
         path = os.path.join(rdir, "violation_%s_%02d.json" % (tier, i))
         vs.sort(key=lambda v: len(json.dumps(v["scenario"])))
         with open(path, "w") as f:
